@@ -69,7 +69,7 @@ theorem no_panic_escapes (c : Cfg) (hr : c.recovers = true) (input : List Nat) (
 /-- … and the hypothesis matters: without `WithRecover` the same model lets a panic escape
     (kernel-checked witness). -/
 example :
-    let c : Cfg := { conf := ⟨false, false, false⟩, n := 1, gen := false, recovers := false, excluded := [],
+    let c : Cfg := { conf := ⟨false, false, false⟩, n := 1, gen := false, groupCancel := true, recovers := false, excluded := [],
                      outcome := fun _ => .panic (.leaf 7) }
     (run c (init c [0]) [.read, .handoff 0, .start 0, .finish 0]).map (·.escaped) = some true := by
   decide
@@ -134,26 +134,92 @@ theorem abort_mode_nonnil_and_worker_stops (c : Cfg) (hr : c.recovers = true) (i
     rw [hi.coll]; exact List.mem_filter.mpr ⟨hx, by rw [reports_eq_reportable]; exact hrep⟩
   rw [this] at hmem; cases hmem
 
-/-- `abort_bounded`: in every reachable state the number of items started after the first
-    finished call that stops the group (its result handling includes the cancellation) is at most
-    the number of workers — not the rest of the input. -/
-theorem abort_bounded (c : Cfg) (hr : c.recovers = true) (input : List Nat) (s : St)
-    (h : Reachable c input s) : afterCount c s.log ≤ c.n := by
+/-! #### the abort bound
+    FULL PROPERTY (C03): "without ContinueOnError / ContinueOnPanic … the number of items started
+    after the first failure returned is bounded by the number of workers rather than the rest of
+    the input being consumed", for all five constructs:
+
+        ∀ c input s, c.recovers = true → Reachable c input s → afterStop c s.log ≤ c.n
+
+    This holds for `Map` and `GenerateParallel` (`abort_bounded`, full strength, any n / input /
+    outcomes / interleaving) and is FALSE for the ProcessParallel family (ProcessParallel,
+    itertool.ParallelForEach / Process / Worker), which never cancels its group
+    (`groupCancel = false`): kernel-checked witness `abort_unbounded_pp_family` below, open finding
+    `ProcessParallel-family:abort-does-not-cancel-group` (the unedited TestParallelForEach/AbortOnPanic
+    asserts that the item after the failure is processed).  What does hold for every construct is
+    `abort_bounded_partial`. -/
+
+/-- `abort_bounded` (constructs that cancel their group: Map, GenerateParallel): in every reachable
+    state the number of items started after the first finished call that stops the group (its
+    result handling includes the cancellation) is at most the number of workers — not the rest of
+    the input. -/
+theorem abort_bounded (c : Cfg) (hr : c.recovers = true) (hg : c.groupCancel = true) (input : List Nat) (s : St)
+    (h : Reachable c input s) : afterStop c s.log ≤ c.n := by
   have hi := reachable_inv hr h
+  rw [afterStop_eq_afterCount hg]
   cases hcan : s.cancelled with
   | false => rw [hi.after0 hcan]; omega
   | true => have := hi.bound hcan; omega
 
-/-- every finished call that may not continue, other than the generator's plain io.EOF, is a
-    group-stopping one: `abort_bounded` counts from the first failure -/
+/-- `abort_bounded_partial` — what holds of the abort clause for EVERY construct, the ProcessParallel
+    family included (missing there: the bound on `afterStop`): every item is started at most once,
+    a worker that may not continue starts nothing more and has returned, and once a reportable
+    failure has been finished the result is non-nil. -/
+theorem abort_bounded_partial (c : Cfg) (hr : c.recovers = true) (input : List Nat) (s : St)
+    (h : Reachable c input s)
+    (hsolid : ∀ x e, (c.outcome x).result = some e → e.solid = true) :
+    (∀ a, (starts s.log).count a ≤ input.count a) ∧
+    workerStops c s.log = true ∧
+    (∀ w, stoppedIn c w s.log = true → s.ws[w]? = some .done) ∧
+    (∀ x ∈ fins s.log, (c.cls x).reportable c.conf = true → resultOf c s.coll ≠ none) := by
+  obtain ⟨h1, h2, h3⟩ := abort_mode_nonnil_and_worker_stops c hr input s h hsolid
+  exact ⟨fun a => at_most_once c hr input s h a, h1, h2, h3⟩
+
+/-- the ProcessParallel family never cancels its group, whatever fails -/
+theorem pp_family_never_cancels (c : Cfg) (hr : c.recovers = true) (hg : c.groupCancel = false)
+    (input : List Nat) (s : St) (h : Reachable c input s) : s.cancelled = false := by
+  have hi := reachable_inv hr h
+  rw [hi.canc]
+  have : ∀ l : List Ev, l.any (isCancelFin c) = false := by
+    intro l; induction l with
+    | nil => rfl
+    | cons e l ih => cases e <;> simp [List.any_cons, isCancelFin, Cfg.cancels, hg, ih]
+  exact this _
+
+/-- kernel-checked witness that the full bound is false for the ProcessParallel family: 2 workers,
+    6 items, abort mode, item 0 fails; the failing worker stops, the other one processes the
+    remaining 5 items — 5 starts after the first failure returned, more than the 2 workers. -/
+theorem abort_unbounded_pp_family :
+    ∃ (c : Cfg) (input : List Nat) (s : St), c.recovers = true ∧ c.groupCancel = false ∧
+      Reachable c input s ∧ Terminal s ∧ c.n < afterStop c s.log := by
+  let c : Cfg := { conf := ⟨false, false, false⟩, n := 2, gen := false, groupCancel := false, recovers := true,
+                   excluded := [], outcome := fun x => if x = 0 then .err (.leaf 100) else .ok }
+  let acts : List Act :=
+    [.read, .handoff 0, .start 0, .finish 0,
+     .read, .handoff 1, .start 1, .finish 1, .read, .handoff 1, .start 1, .finish 1,
+     .read, .handoff 1, .start 1, .finish 1, .read, .handoff 1, .start 1, .finish 1,
+     .read, .handoff 1, .start 1, .finish 1, .rdExit, .exit 1]
+  have hrun : (run c (init c [0, 1, 2, 3, 4, 5]) acts).isSome = true := by decide
+  obtain ⟨s, hs⟩ := Option.isSome_iff_exists.mp hrun
+  refine ⟨c, [0, 1, 2, 3, 4, 5], s, rfl, rfl, ⟨acts, hs⟩, ?_, ?_⟩
+  · have : (run c (init c [0, 1, 2, 3, 4, 5]) acts).all (fun s => decide (Terminal s)) = true := by decide
+    rw [hs] at this; simpa using this
+  · have : (run c (init c [0, 1, 2, 3, 4, 5]) acts).all (fun s => decide (c.n < afterStop c s.log)) = true := by decide
+    rw [hs] at this; simpa using this
+
+/-- every finished call that may not continue, other than the generator's plain io.EOF, stops the
+    group — and cancels it in a construct that cancels: `abort_bounded` counts from the first failure -/
 theorem stopping_call_cancels (c : Cfg) (x : Nat) (hstop : c.cont x = false)
-    (hgen : c.gen = false ∨ (c.cls x).isEOF = false ∨ (c.cls x).hadPanic = true) : c.cancels x = true := by
-  simp only [Cfg.cancels, hstop, Bool.not_false, Bool.true_and, Bool.not_eq_true', Bool.and_eq_false_iff,
-    Bool.not_eq_false']
-  rcases hgen with h | h | h
-  · exact Or.inl (Or.inl h)
-  · exact Or.inl (Or.inr h)
-  · exact Or.inr h
+    (hgen : c.gen = false ∨ (c.cls x).isEOF = false ∨ (c.cls x).hadPanic = true) :
+    c.stops x = true ∧ (c.groupCancel = true → c.cancels x = true) := by
+  have hs : c.stops x = true := by
+    simp only [Cfg.stops, hstop, Bool.not_false, Bool.true_and, Bool.not_eq_true', Bool.and_eq_false_iff,
+      Bool.not_eq_false']
+    rcases hgen with h | h | h
+    · exact Or.inl (Or.inl h)
+    · exact Or.inl (Or.inr h)
+    · exact Or.inr h
+  exact ⟨hs, fun hg => by simp [Cfg.cancels, hg, hs]⟩
 
 /-- `nil_iff_no_reportable_failure`: in every reachable state the result is nil exactly when no
     finished call had a reportable result. -/
@@ -219,7 +285,7 @@ theorem terminal_allowed (c : Cfg) (hr : c.recovers = true) (input : List Nat) (
     mode, item 3 panics) reach terminal states with the quantities the theorems talk about -/
 
 def sampleCfg (ce cp : Bool) : Cfg :=
-  { conf := ⟨cp, ce, false⟩, n := 3, gen := false, recovers := true, excluded := [],
+  { conf := ⟨cp, ce, false⟩, n := 3, gen := false, groupCancel := true, recovers := true, excluded := [],
     outcome := fun x => if x = 1 then .err (.wrap 301 (.leaf 101)) else if x = 3 then .panic (.leaf 103) else .ok }
 
 /-- the well-formedness hypotheses of the theorems above (`hsolid`, `hvis`) hold of these outcomes -/
@@ -240,7 +306,7 @@ def sampleAbortRun : List Act :=
     afterwards (≤ 3 workers), item 4 is never read; the result finds the original error through its wrapper -/
 example :
     (run (sampleCfg false false) (init (sampleCfg false false) [0, 1, 2, 3, 4]) sampleAbortRun).map
-      (fun s => (decide (Terminal s), afterCount (sampleCfg false false) s.log, starts s.log, s.coll,
+      (fun s => (decide (Terminal s), afterStop (sampleCfg false false) s.log, starts s.log, s.coll,
                  isOpt (resultOf (sampleCfg false false) s.coll) 101, s.src)) =
       some (true, 2, [3, 2, 1, 0], [3, 1], true, [4]) := by
   decide
@@ -263,7 +329,7 @@ example :
     ErrRecoveredPanic, and an empty slice is swallowed — `reported_is_original` therefore speaks of
     `.panic` outcomes only (kernel-checked witness). -/
 example :
-    let c : Cfg := { conf := ⟨false, true, false⟩, n := 1, gen := false, recovers := true, excluded := [],
+    let c : Cfg := { conf := ⟨false, true, false⟩, n := 1, gen := false, groupCancel := true, recovers := true, excluded := [],
                      outcome := fun x => if x = 0 then .panicSlice (.cons (.leaf 100) .nil) else .panicSlice .nil }
     (run c (init c [0, 1]) [.read, .handoff 0, .start 0, .finish 0, .read, .handoff 0, .start 0, .finish 0]).map
       (fun s => (s.coll, isOpt (resultOf c s.coll) idRecoveredPanic, isOpt (resultOf c s.coll) 100)) =
